@@ -5,7 +5,7 @@ from srcreplay import replay_src  # translated source run in Coq vs the real out
 
 PROP = {
     "confirm_scenarios": ['silence.*'],
-    "coq": ["C19", "C19s", "C19b", "C19c", "C19t"],
+    "coq": ["C19", "C19s", "C19b", "C19c", "C19t", "C19d"],
     "pre": [regen_src],
     "extra": [replay_src({'timing'})],
     "exhaustive": False,
@@ -35,7 +35,16 @@ PROP = {
             "reply starting during the client's post-transmit delay or when it is blocked in its read. The gap between the instant "
             "just before the LAST segment of reply k is handed over and the arrival of the first byte of request k+1 must satisfy "
             "slow_silence_okb of Model/TimingPieces.v (extracted; the send-time machine run on the delivery plan of the case): "
-            "gap >= t35(speed) (Properties/C19c.v).",
+            "gap >= t35(speed) (Properties/C19c.v)."
+            " Scenario silenceidle: sessions that mix calls with idle times during which bytes reach the client - the late answer to a "
+            "request that timed out, a reply or an exception frame of another unit nobody asked for - 30..300 % of t3.5 after the "
+            "previous call returned, the caller coming back 5..50 %, 50..100 % or 120..400 % of t3.5 after the arrival; 2-3 such "
+            "episodes per session, every one followed by 1-2 answered calls; rtuovertcp clients (VerifNewClientOnConn) on a buffered "
+            "scripted connection and on a synchronous net.Pipe, 1200/2400/4800/9600 bps (thorough: 600..115200 bps, 6 sessions per "
+            "rate and link). The client's side of the link is wrapped in a recorder: the time between the last Read that returned "
+            "bytes (taken before the client gets them) and the entry of the next Write, smallest over the session, must satisfy "
+            "idle_silence_okb of Model/TimingIdle.v (extracted): one request per call at least and gap >= t35(speed), whichever "
+            "statement of the client took the bytes (Properties/C19d.v); what the calls return is not judged.",
     "assumptions": [
         "rates are 1..10^7 bps (rate 0 divides by zero in serialCharTime; uint rates above 2^63 do not fit time.Duration)",
         "the clock is monotone and time.Sleep(d) returns after at least d (Go runtime monotonic clock)",
@@ -57,7 +66,12 @@ CLAIM = {
             "than t35 after the estimated end (ts + n*t1) of an unanswered transmission (invariant proved by induction over the history). "
             "C19c: the same holds when every reply is read in pieces (header, then the rest; byte by byte; any pauses), for every "
             "rule that records as the end of a received frame an instant not earlier than the return of the read that consumed its "
-            "last byte (the code's time.Now() is one; an end of frame estimated from the header at line rate is proved not to be).",
+            "last byte (the code's time.Now() is one; an end of frame estimated from the header at line rate is proved not to be). "
+            "C19d: the same holds for sessions in which frames reach the link while the client is idle between two calls (late "
+            "answers, frames nobody asked for) and are read later, in the read of the next exchange (the code) or at the beginning "
+            "of the next call: no request starts earlier than t35 after ANY earlier read that took bytes, for every rule that "
+            "records the instant after such a read; reading the buffer empty at the beginning of a call without recording it is "
+            "proved not to keep the silence.",
     "note": "Level proof for the computation clause. The observed-silence clause is PARTIAL: the state-machine theorem is about a "
             "hand-written model of rtu_transport.go:64-107 over an abstract clock; real clocks, scheduler latency, kernel/tty buffering "
             "(Write returns before the bytes are on the line; the code only estimates n*t1) and the physical line are outside the "
